@@ -373,9 +373,13 @@ def hilbert_cpu_list(meta, scaling, select, infofile):
             bounding_box["{}max".format(c)] = end._array / box_size
 
     if new_bbox:
+        # The search cubes must not be finer than the coarsest cells that can be
+        # loaded: a cell belongs to the cpu owning the Hilbert key of its (larger)
+        # parent cell, which only lies inside the cubes if they are at least as
+        # large as that parent.
         return _get_cpu_list(
             bounding_box=bounding_box,
-            lmax=meta["lmax"],
+            lmax=min(meta["lmax"], meta["levelmin"]),
             levelmax=meta["levelmax"],
             infofile=infofile,
             ncpu=meta["ncpu"],
